@@ -43,6 +43,23 @@ type c13step struct {
 	Method string
 }
 
+// c13soft: the server of this case requires no password (connections start authorized) but has an application
+// authenticator that refuses wrong credentials the quiet way - (false, nil) instead of an error. A refused AUTH
+// must leave an authorized connection authorized.
+var c13soft bool
+
+type softAuthenticator struct{}
+
+func (softAuthenticator) Authenticate(conn auth.Conn) (bool, error) {
+	if u, ok := conn.UserName(); ok && u != "" {
+		return false, nil
+	}
+	if p, ok := conn.Password(); ok && p != c08pass {
+		return false, nil
+	}
+	return true, nil
+}
+
 func c13program(r *rng.R, tag string, n int, password bool) c13prog {
 	p := c13prog{Tag: tag}
 	db := 0
@@ -61,7 +78,7 @@ func c13program(r *rng.R, tag string, n int, password bool) c13prog {
 			p.Reqs = append(p.Reqs, resp.Cmd("SELECT", rng.Pick(r, []string{"abc", "", "1.5", "99999999999999999999"})))
 			p.Steps = append(p.Steps, c13step{Kind: "select-bad"})
 		case 3:
-			if password {
+			if password || c13soft {
 				if r.Bool() {
 					p.Reqs = append(p.Reqs, resp.Cmd("AUTH", c08pass))
 					p.Steps = append(p.Steps, c13step{Kind: "auth-right"})
@@ -100,6 +117,9 @@ func c13program(r *rng.R, tag string, n int, password bool) c13prog {
 
 func c13server(password bool, rec *double.RecHandler) *redis.Server {
 	srv := newServer(rec)
+	if c13soft {
+		srv.AddAuthenticator(softAuthenticator{})
+	}
 	if password {
 		srv.SetRequirePass(c08pass)
 		srv.AddAuthenticator(auth.NewClearTextPasswordAuthenticatorWith("", c08pass))
@@ -229,7 +249,9 @@ func c13run(idx int) run.Result {
 	var res run.Result
 	res.Idx = idx
 	r := rng.New(c13.seed, rng.Str("C13"), uint64(idx))
-	password := r.Chance(1, 3)
+	mode := r.Intn(4) // 0,1: no password; 2: requirepass; 3: no password + quietly refusing authenticator
+	password := mode == 2
+	c13soft = mode == 3
 	rec := double.NewRec()
 	if idx < c13.nSys {
 		// systematic: two connections in lock-step, all interleavings of two 4-request programs
@@ -351,7 +373,7 @@ func init() {
 	run.Register(&run.Prop{
 		ID: "C13", Level: "exploration",
 		Rule: func(tier string) string {
-			return "case = 2..8 connections served by one server through hook H1 (children are built with the Go race detector), each running its own program of SELECT n (small, negative and huge indices; ill-formed tokens), AUTH (right and wrong; a third of the cases require a password) and single-call data commands whose keys carry the issuing connection's tag. Schedules: (systematic) two connections in lock-step under ALL 70 interleavings of two 4-request programs; (free-running) every connection on its own goroutine with seeded Gosched yields inside the handler double. Monitor: every handler call is attributed to the issuing connection by its key tag and must show conn.Database(), IsAuthrized(), a per-connection counter kept in the connection's sync.Map and the connection UUID equal to that connection's own command history, where a SELECT or AUTH counts iff its reply was +OK (programs are sequential per connection, so the expectation is exact under any interleaving); UUIDs of different connections differ. Evidence reports distinct observed interleavings (hash of the global call order)"
+			return "case = 2..8 connections served by one server through hook H1 (children are built with the Go race detector), each running its own program of SELECT n (small, negative and huge indices; ill-formed tokens), AUTH (right and wrong; a quarter of the cases require a password, another quarter require none but have an application authenticator that refuses wrong credentials with (false, nil) rather than an error) and single-call data commands whose keys carry the issuing connection's tag. Schedules: (systematic) two connections in lock-step under ALL 70 interleavings of two 4-request programs; (free-running) every connection on its own goroutine with seeded Gosched yields inside the handler double. Monitor: every handler call is attributed to the issuing connection by its key tag and must show conn.Database(), IsAuthrized(), a per-connection counter kept in the connection's sync.Map and the connection UUID equal to that connection's own command history, where a SELECT or AUTH counts iff its reply was +OK (programs are sequential per connection, so the expectation is exact under any interleaving); UUIDs of different connections differ. Evidence reports distinct observed interleavings (hash of the global call order)"
 		},
 		Assumptions: []string{"the per-connection user data is observed through the sync.Map embedded in redis.Conn"},
 		Setup: func(tier string, seed uint64) int {
